@@ -1,0 +1,28 @@
+/* verif-hook.h -- observation hooks for the model-based verification harness.
+
+   Only active when the library is compiled with -DMPIR_VERIF.  A hook is a
+   call-out with scalar arguments at a decision point; it never changes any
+   value the library computes.  Without MPIR_VERIF, VERIF_EV expands to
+   nothing.  */
+
+#ifndef __MPIR_VERIF_HOOK_H__
+#define __MPIR_VERIF_HOOK_H__
+
+#ifdef MPIR_VERIF
+#if defined (__cplusplus)
+extern "C" {
+#endif
+extern void (*__mpir_verif_ev) (const char *tag, long a, long b, long c, long d);
+#if defined (__cplusplus)
+}
+#endif
+#define VERIF_EV(tag,a,b,c,d)						\
+  do {									\
+    if (__mpir_verif_ev != 0)						\
+      (*__mpir_verif_ev) (tag, (long) (a), (long) (b), (long) (c), (long) (d)); \
+  } while (0)
+#else
+#define VERIF_EV(tag,a,b,c,d)  ((void) 0)
+#endif
+
+#endif /* __MPIR_VERIF_HOOK_H__ */
